@@ -773,11 +773,46 @@ func checkC21(env *kernel.Env) {
 			}
 		}
 	}
+	// reads through every secondary index find the rows the table holds (row: the
+	// model row whose values are looked up, -1 = one drawn per index)
+	indexReads := func(s *Sess, when, class string, row int) {
+		for _, x := range m.idx {
+			if env.Failed() || len(m.rows) == 0 {
+				break
+			}
+			ci := m.ci(x.col)
+			ri := row
+			if ri < 0 || ri >= len(m.rows) {
+				ri = T.Draw(len(m.rows))
+			}
+			v := m.rows[ri][ci]
+			if v == nil {
+				continue
+			}
+			want := 0
+			for _, r := range m.rows {
+				if r[ci] != nil && aLit(r[ci]) == aLit(v) {
+					want++
+				}
+			}
+			q := fmt.Sprintf("SELECT COUNT(*) FROM %s WHERE %s = %s", m.name, x.col, aLit(v))
+			r := s.Exec(q)
+			if r.Err != nil || len(r.Rows) != 1 || FormatVal(r.Rows[0][0]) != fmt.Sprint(want) {
+				env.Fail("data-preserved", class, "%s: %s returns %v (err %v); the table holds %d such row(s)", when, q, FormatRows(r.Rows, true), r.Err, want)
+			}
+		}
+	}
 	faults := T.Bool(1, 2)
 	for step := 0; step < steps && !env.Failed(); step++ {
 		if T.Bool(1, 4) {
+			nRows := len(m.rows)
 			insertRow([]*Sess{s1, s2}[T.Draw(2)], true)
 			env.Kind("insert")
+			if len(m.rows) > nRows && !env.Failed() {
+				// the row just stored is found through every index (a failed ALTER before
+				// it must have left the indexes as they were)
+				indexReads(s1, fmt.Sprintf("after the insert of row %d", len(m.rows)), "index-read-differs-after-insert", len(m.rows)-1)
+			}
 			continue
 		}
 		s := []*Sess{s1, s2}[T.Draw(2)]
@@ -883,6 +918,8 @@ func checkC21(env *kernel.Env) {
 				env.Fail("failed-alter-no-effect", "schema-changed-by-failed-alter:"+op.kind, "%q failed (%s) but DESCRIBE changed:\nbefore: %s\nafter:  %s", op.sql, cls, beforeDesc, got)
 				break
 			}
+			// the indexes are as they were, too: reads through them still agree with the table
+			indexReads(s, fmt.Sprintf("after the failed %q", op.sql), "index-read-differs-after-failed-alter:"+op.kind, -1)
 			continue
 		}
 		if wantErr != "" {
@@ -919,27 +956,7 @@ func checkC21(env *kernel.Env) {
 			}
 		}
 		// reads through every secondary index still find the rows
-		for _, x := range m.idx {
-			if env.Failed() || len(m.rows) == 0 {
-				break
-			}
-			ci := m.ci(x.col)
-			v := m.rows[T.Draw(len(m.rows))][ci]
-			if v == nil {
-				continue
-			}
-			want := 0
-			for _, r := range m.rows {
-				if r[ci] != nil && aLit(r[ci]) == aLit(v) {
-					want++
-				}
-			}
-			q := fmt.Sprintf("SELECT COUNT(*) FROM %s WHERE %s = %s", m.name, x.col, aLit(v))
-			r := s.Exec(q)
-			if r.Err != nil || len(r.Rows) != 1 || FormatVal(r.Rows[0][0]) != fmt.Sprint(want) {
-				env.Fail("data-preserved", "index-read-differs-after-alter:"+op.kind, "after %q: %s returns %v (err %v); the table holds %d such row(s)", op.sql, q, FormatRows(r.Rows, true), r.Err, want)
-			}
-		}
+		indexReads(s, fmt.Sprintf("after %q", op.sql), "index-read-differs-after-alter:"+op.kind, -1)
 		env.Nontrivial()
 	}
 }
